@@ -11,6 +11,11 @@ structure State where
   known : Bool := true      -- false once the case used an operation the model cannot replay (`bulk`)
   down : List Nat := []     -- nodes that refuse connections (crashed but still selected)
   dists : List (Nat × List Membership.Member) := []   -- live_members of the distributor of node i: (member id, node index)
+  -- a node holds many keyspaces; they share nothing but the clock and the membership, so the cluster model is instantiated
+  -- once per keyspace: `c` is the current one, `others` the rest, `cur` its name
+  others : List (String × Cluster) := []
+  cur : String := "ks"
+  nnodes : Nat := 0
 
 def kvArg (toks : List String) (key : String) : Option Nat :=
   toks.findSome? (fun t => if t.startsWith (key ++ "=") then (t.drop (key.length + 1)).toString.toNat? else none)
@@ -71,12 +76,36 @@ def issue (st : State) (i : Nat) (op : Issued) (ts : Nat) : State × String :=
   let c2 := { c1 with ops := c1.ops ++ [(i, op)] }
   ({ st with c := c2 }, s!"{if ok then "ok" else "err"} op={c2.ops.length - 1} ts={ts}")
 
+def switchKs (st : State) (name : String) : State :=
+  if name == st.cur then st
+  else
+    let saved := (st.cur, st.c) :: st.others.filter (·.1 ≠ st.cur)
+    let c := ((saved.find? (·.1 == name)).map (·.2)).getD { nodes := List.replicate st.nnodes {} }
+    { st with c := c, others := saved.filter (·.1 ≠ name), cur := name }
+
+/-- `check_node_changes` + `begin_keyspace_sync` for every keyspace the peer lists: one model exchange per keyspace. -/
+def repairAll (st : State) (j i : Nat) (rf : Bool) : State × String :=
+  let all := StoreDom.sortOn (fun (_ : String × Cluster) => 0) ((st.cur, st.c) :: st.others)
+  let names := (all.map (·.1))
+  let sortedNames := names.foldl (fun acc n => (acc.filter (· < n)) ++ [n] ++ (acc.filter (fun x => !(x < n)))) ([] : List String)
+  let res := sortedNames.map (fun name =>
+    let c := ((all.find? (·.1 == name)).map (·.2)).getD {}
+    let (c1, out) := repair c j i rf
+    (name, c1, out))
+  let synced := res.filterMap (fun r => match r.2.2 with | .synced m rm => some s!"{r.1}:m{m}:r{rm}" | _ => none)
+  let failed := res.any (fun r => match r.2.2 with | .failed => true | _ => false)
+  let cNew := ((res.find? (·.1 == st.cur)).map (·.2.1)).getD st.c
+  let others := (res.filter (·.1 ≠ st.cur)).map (fun r => (r.1, r.2.1))
+  ({ st with c := cNew, others := others },
+    if failed then "err" else if synced.isEmpty then "skipped" else "synced " ++ ",".intercalate synced)
+
 def step (st : State) (toks : List String) : State × String :=
   let c := st.c
   match toks with
+  | ["ks", name] => (switchKs st name, "ok")
   | ["nodes", n] =>
     match n.toNat? with
-    | some n => ({ c := { nodes := List.replicate n {} }, known := true }, "ok")
+    | some n => ({ c := { nodes := List.replicate n {} }, known := true, nnodes := n }, "ok")
     | none => (st, "bad-op")
   | "put" :: i :: id :: d :: rest =>
     match i.toNat?, id.toNat?, StoreDom.genData d, kvArg rest "ts" with
@@ -117,24 +146,13 @@ def step (st : State) (toks : List String) : State × String :=
     | _, _ => (st, "bad-op")
   | "repair" :: j :: i :: rest =>
     match j.toNat?, i.toNat? with
-    | some j, some i =>
-      let rf := (rest.head?.getD "1") == "1"
-      let (c1, out) := repair c j i rf
-      ({ st with c := c1 }, match out with
-        | .skipped => "skipped"
-        | .synced m r => s!"synced ks:m{m}:r{r}"
-        | .failed => "err")
+    | some j, some i => repairAll st j i ((rest.head?.getD "1") == "1")
     | _, _ => (st, "bad-op")
   | ["repairc", j, i] =>
     -- the concurrent production path: both halves run; under the model's atomic handlers the result
     -- equals one of the two sequential orders; removals are dispatched first
     match j.toNat?, i.toNat? with
-    | some j, some i =>
-      let (c1, out) := repair c j i true
-      ({ st with c := c1 }, match out with
-        | .skipped => "skipped"
-        | .synced m r => s!"synced ks:m{m}:r{r}"
-        | .failed => "err")
+    | some j, some i => repairAll st j i true
     | _, _ => (st, "bad-op")
   | ["purge", j] =>
     match j.toNat? with
